@@ -24,6 +24,129 @@ def load_vocabulary(verif_dir):
         return set(json.load(fh)["functions"])
 
 
+def load_reference(verif_dir):
+    p = os.path.join(verif_dir, "reference", "functions.json")
+    if not os.path.exists(p):
+        return None
+    with open(p) as fh:
+        return json.load(fh)
+
+
+def rename_aliases(raw, ref):
+    """{current path: reference path} for private items that were merely renamed: a function of the reference that is
+    gone, and exactly one function that the reference does not know, in the same module / impl, with the same parameter
+    types (in order) and return type; a named constant that is gone and exactly one unknown constant of the same module,
+    type and compiler-evaluated value.  Anything less certain is left alone (the unknown function is then spliced into
+    its callers and rules anchored on the missing name fail closed)."""
+    if ref is None or "signatures" not in ref:
+        return {}
+    out = {}
+    cur = {x["path"]: x for x in raw["fns"] if x["kind"] in ("Fn", "AssocFn")}
+    sigs = ref["signatures"]
+    missing = [p for p in sigs if p not in cur]
+    new = [p for p in cur if p not in sigs]
+
+    def sig_of(x):
+        return (x["parent"], tuple(l["ty"] for l in x["locals"][1:1 + x["arg_count"]]), x["ret_ty"])
+    taken = set()
+    for m in sorted(missing):
+        want = (sigs[m]["parent"], tuple(sigs[m]["args"]), sigs[m]["ret"])
+        cands = [n for n in new if sig_of(cur[n]) == want]
+        rivals = [m2 for m2 in missing if (sigs[m2]["parent"], tuple(sigs[m2]["args"]), sigs[m2]["ret"]) == want]
+        if len(cands) == 1 and len(rivals) == 1 and cands[0] not in taken:
+            out[cands[0]] = m
+            taken.add(cands[0])
+    # renamed AND re-ordered / re-borrowed parameters: same module, same return type, same multiset of parameter types
+    # up to one level of `&` / `&mut`, all parameter types distinct (so the correspondence is unambiguous)
+    def base(ty):
+        ty = ty.strip()
+        while ty.startswith("&"):
+            ty = ty[1:].strip()
+            if ty.startswith("'"):
+                ty = ty.split(" ", 1)[1] if " " in ty else ty
+            if ty.startswith("mut "):
+                ty = ty[4:]
+        return ty
+    perms = {}
+    for m in sorted(missing):
+        if m in out.values():
+            continue
+        want_args = [base(a) for a in sigs[m]["args"]]
+        if len(set(want_args)) != len(want_args):
+            continue
+        cands = []
+        for n in new:
+            if n in taken:
+                continue
+            x = cur[n]
+            have = [base(l["ty"]) for l in x["locals"][1:1 + x["arg_count"]]]
+            if x["parent"] == sigs[m]["parent"] and x["ret_ty"] == sigs[m]["ret"] and sorted(have) == sorted(want_args):
+                cands.append((n, have))
+        rivals = [m2 for m2 in missing if m2 not in out.values() and sigs[m2]["parent"] == sigs[m]["parent"] and sigs[m2]["ret"] == sigs[m]["ret"]
+                  and sorted(base(a) for a in sigs[m2]["args"]) == sorted(want_args)]
+        if len(cands) == 1 and len(rivals) == 1:
+            n, have = cands[0]
+            out[n] = m
+            taken.add(n)
+            perms[m] = [have.index(a) for a in want_args]      # reference position j -> current position perms[m][j]
+    raw["_param_perms"] = perms
+    rc = ref.get("consts", {})
+    ccur = {c["path"]: c for c in raw["consts"]}
+    cmiss = [p for p in rc if p not in ccur]
+    cnew = [p for p in ccur if p not in rc]
+    for m in sorted(cmiss):
+        mod = m.rsplit("::", 1)[0]
+        want = (rc[m]["ty"], json.dumps(rc[m]["value"], sort_keys=True))
+        cands = [n for n in cnew if n.rsplit("::", 1)[0] == mod and (ccur[n]["ty"], json.dumps(ccur[n].get("value"), sort_keys=True)) == want and rc[m]["value"] is not None]
+        rivals = [m2 for m2 in cmiss if m2.rsplit("::", 1)[0] == mod and (rc[m2]["ty"], json.dumps(rc[m2]["value"], sort_keys=True)) == want]
+        if len(cands) == 1 and len(rivals) == 1 and cands[0] not in taken:
+            out[cands[0]] = m
+            taken.add(cands[0])
+    return out
+
+
+def apply_aliases(text, aliases):
+    """rename items in the facts JSON text (paths are only ever followed by a non-identifier character)"""
+    import re
+    for cur, refname in sorted(aliases.items(), key=lambda kv: -len(kv[0])):
+        text = re.sub(re.escape(cur) + r"(?![A-Za-z0-9_])", refname.replace("\\", "\\\\"), text)
+    return text
+
+
+def restore_param_order(raw, perms):
+    """a renamed helper whose parameters were re-ordered: put its parameters (and the arguments of every call to it)
+    back into the reference order, so that positional rules keep meaning what they meant"""
+    for m, perm in perms.items():
+        if perm == list(range(len(perm))):
+            continue
+        for x in raw["fns"]:
+            bodies = [x] + list(x.get("promoted", []))
+            if x["path"] == m:
+                n = x["arg_count"]
+                # local k (1-based current position perm[j]+1) becomes local j+1
+                lmap = {perm[j] + 1: j + 1 for j in range(n)}
+
+                def ren(o):
+                    if isinstance(o, dict):
+                        for k, v in list(o.items()):
+                            if k == "local" and isinstance(v, int) and not isinstance(v, bool) and v in lmap:
+                                o[k] = lmap[v]
+                            else:
+                                ren(v)
+                    elif isinstance(o, list):
+                        for v in o:
+                            ren(v)
+                ren(x["blocks"])
+                old = list(x["locals"])
+                for cur_i, ref_i in lmap.items():
+                    x["locals"][ref_i] = old[cur_i]
+            for bdy in bodies:
+                for b in bdy["blocks"]:
+                    t = b["term"]
+                    if t["k"] == "call" and t["func"].get("k") == "fn" and strip_generics(t["func"].get("resolved") or t["func"]["path"]) == m and len(t["args"]) == len(perm):
+                        t["args"] = [t["args"][perm[j]] for j in range(len(perm))]
+
+
 def _renumber(o, base, bmap):
     """deep copy of JSON `o` with every place-local shifted by `base`"""
     if isinstance(o, dict):
